@@ -3,7 +3,7 @@
    flattened to one nested list of naturals so that one equality test compares everything. *)
 From Coq Require Import List Arith Bool NArith.
 From Verif.lib Require Import FinSet.
-From Verif.C04 Require Import Model Boundary.
+From Verif.C04 Require Import Model Boundary Supports.
 Import ListNotations.
 
 Definition ob := list N.
@@ -25,13 +25,21 @@ Fixpoint inboxb (shape idx : list nat) : bool :=
   | _, _ => false
   end.
 
-(* a set of multi-indices inside the box [shape] as (bit mask over the raveled indices,
-   number of elements); a set with an element outside the box gets the impossible size 999999.
-   For duplicate-free sets inside the box the encoding is injective. *)
+(* a set of multi-indices inside the box [shape] as (bit mask over the raveled indices, cut into
+   60-bit words, little endian; number of elements); a set with an element outside the box gets
+   the impossible size 999999.  For duplicate-free sets inside the box the encoding is injective.
+   (Words instead of one big number: Coq reads long number literals in superlinear time.) *)
+Fixpoint words (m : N) (n : nat) : list N :=
+  match n with 0 => [] | S n' => N.land m 1152921504606846975%N :: words (N.shiftr m 60) n' end.
+
+Definition nwords (bits : nat) : nat := (bits + 59) / 60.
+
 Definition enc (shape : list nat) (s : list mi) : list N :=
+  let nw := nwords (fold_left Nat.mul shape 1) in
   if forallb (inboxb shape) s
-  then [fold_left (fun acc x => N.lor acc (N.shiftl 1 (N.of_nat (ravel shape x)))) s 0%N; N.of_nat (length s)]
-  else [0%N; 999999%N].
+  then words (fold_left (fun acc x => N.lor acc (N.shiftl 1 (N.of_nat (ravel shape x)))) s 0%N) nw
+       ++ [N.of_nat (length s)]
+  else repeat 0%N nw ++ [999999%N].
 
 Fixpoint row_mask (j : N) (r : list bool) : N :=
   match r with [] => 0%N | b :: r' => N.lor (if b then N.shiftl 1 j else 0%N) (row_mask (N.succ j) r') end.
@@ -58,7 +66,8 @@ Definition obs_of (ok : bool) (st : hspace) (ret : list set) (prev root : hspace
         enc (cshape st k) (lv_active l) ++ enc (cshape st k) (lv_deact l)
         ++ enc (fshape st k) (lv_actfun l) ++ enc (fshape st k) (lv_deactfun l)) (seq 0 L)
   ++ flat_map (fun k => enc (cshape st k) (nth k ret [])) (seq 0 L)
-  ++ (if with_inc then N.of_nat (length (active_functions_flat st)) :: map (row_mask 0%N) (incidence st) else [])
+  ++ (if with_inc then N.of_nat (length (active_functions_flat st))
+                      :: flat_map (fun r => words (row_mask 0%N r) (nwords (length r))) (incidence st) else [])
   ++ [bits (rel4 prev st ++ (if first then [] else rel4 root st))]
   ++ (if with_tables then
         flat_map (fun k => let m := msh st k in
@@ -105,6 +114,20 @@ Definition bd_obs (st : hspace) (bds : list bdspec) (bd : bdspec) (with_boundary
         end
       else []).
 
+(* the hierarchical support queries of the driver (support_obs): all active functions, a seeded
+   multi-level selection of functions, a seeded multi-level selection of cells, and the virtual
+   supports of the global index lists *)
+Definition enc_dict (st : hspace) (n : nat) (r : list set) : ob :=
+  flat_map (fun k => enc (cshape st k) (nth k r [])) (seq 0 n).
+
+Definition sup_obs (st : hspace) (funcs cells : list (list mi)) : ob :=
+  let L := numlevels st in
+  enc_dict st L (compute_supports st (map (fun l => lv_actfun (lvl st l)) (seq 0 L)))
+  ++ enc_dict st L (compute_supports st funcs)
+  ++ enc_dict st L (hmesh_cells st cells)
+  ++ flat_map (fun p => enc_dict st (S (fst p)) (snd p))
+       (combine (seq 0 L) (compute_virtual_supports st (global_lists st))).
+
 Definition step_full (st : hspace) (o : op) : hspace * bool * list set :=
   match o with
   | Refine raw trunc =>
@@ -118,15 +141,17 @@ Definition step_full (st : hspace) (o : op) : hspace * bool * list set :=
 
 (* per call: the op, whether the incidence matrix / the mesh tables are compared, the query
    arguments, and whether this step is compared at all *)
-Definition stepinfo := (op * bool * bool * list query * option (list bdspec * bdspec * bool) * bool)%type.
+Definition stepinfo := (op * bool * bool * list query * option (list bdspec * bdspec * bool)
+                     * option (list (list mi) * list (list mi)) * bool)%type.
 
 Fixpoint obs_steps (root st : hspace) (first : bool) (steps : list stepinfo) : list (option ob) :=
   match steps with
   | [] => []
-  | (o, with_inc, with_tables, qs, bq, cmp) :: rest =>
+  | (o, with_inc, with_tables, qs, bq, sq, cmp) :: rest =>
       let '(st', ok, ret) := step_full st o in
       (if cmp then Some (obs_of ok st' ret st root first with_inc with_tables qs
-                         ++ match bq with None => [] | Some (bds, bd, wb) => bd_obs st' bds bd wb end)
+                         ++ match bq with None => [] | Some (bds, bd, wb) => bd_obs st' bds bd wb end
+                         ++ match sq with None => [] | Some (fs, cs) => sup_obs st' fs cs end)
        else None)
       :: obs_steps root st' false rest
   end.
